@@ -497,10 +497,10 @@ impl<Key, Value> CacheD<Key, Value>
     }
 
     fn ttl_ticker(config: &Config<Key, Value>, store: Arc<Store<Key, Value>>, admission_policy: Arc<AdmissionPolicy<Key>>) -> Arc<TTLTicker> {
-        let store_evict_hook = move |key| {
-            store.delete(&key);
-        };
         let cache_weight_evict_hook = move |key_id: &KeyId| {
+            let store_evict_hook = |key| {
+                store.delete_if_key_id_matches(&key, key_id);
+            };
             admission_policy.delete_with_hook(key_id, &store_evict_hook);
         };
 
